@@ -139,6 +139,17 @@ def make_pyvis_net(
                 except AttributeError:
                     # not a member
                     continue
+                if not (
+                    isinstance(j, int)
+                    and 0 <= j < len(verts)
+                    and verts[j] is other
+                ):
+                    # the far end answered the lookup without being one of
+                    # our vertices (it carried the attribute in, or answers
+                    # None for any attribute): not a member either.  PyVis
+                    # refuses such an edge only through an assert, which
+                    # python -O compiles away
+                    continue
 
                 # pyvis doesn't directly offer an argument in the add_edge()
                 # method to specify if the arrow is directed or not.  rather,
